@@ -343,4 +343,112 @@ theorem gather_indicesView {α : Type} (psh : List Nat) (ix : List (Option Nat))
   have := gather_original psh ix f .none hv ⟨_, rfl⟩
   simpa [toOriginalView, indicesView, gather_none] using this
 
+/-- `indexed.get(view) = parent[indices][view]` for any parent array given by a function. -/
+theorem indexed_compose {α : Type} [Inhabited α] (psh : List Nat) (ix : List (Option Nat))
+    (f : List Nat → α) (v : View) (hv : ixValid psh ix = true)
+    (hok : ∃ sp, viewPoints (reducedShape psh ix) v = .ok sp) :
+    (match toOriginalView psh ix v with
+     | .ok ov => gather psh f ov
+     | .error e => .error e) = Spec.indexedViewOf (tabulate psh f) ix v := by
+  rw [gather_original psh ix f v hv hok]
+  unfold Spec.indexedViewOf
+  rw [index_tabulate, gather_indicesView psh ix f hv]
+  exact (index_tabulate _ _ v).symm
+
+/-! ### positive steps, pixel attributes, re-indexing -/
+
+theorem mergeView_posStep : ∀ (ix : List (Option Nat)) (items : List ViewItem),
+    items.all ViewItem.posStep = true →
+    (mergeView (fun k => ViewItem.int k) fullSlice ix items).all ViewItem.posStep = true
+  | [], _, _ => rfl
+  | some k :: ix, items, h => by
+    have hm : mergeView (fun k => ViewItem.int k) fullSlice (some k :: ix) items =
+        ViewItem.int k :: mergeView (fun k => ViewItem.int k) fullSlice ix items := by
+      cases items <;> rfl
+    rw [hm, List.all_cons, mergeView_posStep ix items h]
+    rfl
+  | none :: ix, [], h => by
+    show (fullSlice :: mergeView _ fullSlice ix []).all ViewItem.posStep = true
+    rw [List.all_cons, mergeView_posStep ix [] h]
+    rfl
+  | none :: ix, it :: its, h => by
+    simp only [List.all_cons, Bool.and_eq_true] at h
+    show (it :: mergeView _ fullSlice ix its).all ViewItem.posStep = true
+    rw [List.all_cons, mergeView_posStep ix its h.2, h.1]
+    rfl
+
+theorem toOriginalView_posStep {psh : List Nat} {ix : List (Option Nat)} {v ov : View}
+    (hv : v.posStep = true) (h : toOriginalView psh ix v = .ok ov) : ov.posStep = true := by
+  cases v with
+  | none => simp only [toOriginalView] at h; cases h; exact mergeView_posStep ix [] rfl
+  | ellipsis => simp only [toOriginalView] at h; cases h; exact mergeView_posStep ix [] rfl
+  | basic items =>
+    simp only [toOriginalView] at h; cases h
+    exact mergeView_posStep ix items (by simpa [View.posStep] using hv)
+  | arrays s items =>
+    simp only [toOriginalView] at h
+    split at h
+    · cases h
+    · cases h; rfl
+  | mask m =>
+    simp only [toOriginalView] at h
+    split at h
+    · cases h
+    · cases h; rfl
+
+/-- The parent axis of the reduced dataset's `k`-th axis carries, at an embedded point, the `k`-th
+coordinate of the reduced point. -/
+theorem getD_embed_translateAxis : ∀ (psh : List Nat) (ix : List (Option Nat)) (idx : List Nat) (k : Nat),
+    ixValid psh ix = true → k < (reducedShape psh ix).length →
+    (embed ix idx).getD (translateAxis ix k) 0 = idx.getD k 0
+  | [], [], _, k, _, hk => by simp [reducedShape] at hk
+  | [], _ :: _, _, _, hv, _ => by simp [ixValid] at hv
+  | _ :: _, [], _, _, hv, _ => by simp [ixValid] at hv
+  | h :: hs, some c :: ix, idx, k, hv, hk => by
+    simp only [ixValid, Bool.and_eq_true] at hv
+    rw [embed_some]
+    show ((c :: embed ix idx).getD (translateAxis ix k + 1) 0) = _
+    rw [List.getD_cons_succ]
+    exact getD_embed_translateAxis hs ix idx k hv.2 hk
+  | h :: hs, none :: ix, idx, 0, _, _ => by
+    cases idx <;> rfl
+  | h :: hs, none :: ix, idx, k + 1, hv, hk => by
+    simp only [ixValid] at hv
+    have hk' : k < (reducedShape hs ix).length := by
+      have : reducedShape (h :: hs) (none :: ix) = h :: reducedShape hs ix := rfl
+      rw [this] at hk
+      simpa using hk
+    cases idx with
+    | nil =>
+      show ((0 :: embed ix []).getD (translateAxis ix k + 1) 0) = _
+      rw [List.getD_cons_succ, getD_embed_translateAxis hs ix [] k hv hk']
+      simp
+    | cons j js =>
+      show ((j :: embed ix js).getD (translateAxis ix k + 1) 0) = _
+      rw [List.getD_cons_succ, getD_embed_translateAxis hs ix js k hv hk']
+      simp
+
+theorem setIndices_eq {old new ix : List (Option Nat)} (h : setIndices old new = some ix) :
+    ix = new ∧ new.length = old.length ∧
+      (old.zip new).all (fun p => p.1.isNone == p.2.isNone) = true := by
+  unfold setIndices at h
+  split at h
+  · rename_i hc
+    cases h
+    exact ⟨rfl, hc.1, hc.2⟩
+  · cases h
+
+/-- Re-indexing never changes the shape of the reduced dataset. -/
+theorem reducedShape_setIndices : ∀ (psh : List Nat) (old new : List (Option Nat)),
+    new.length = old.length → (old.zip new).all (fun p => p.1.isNone == p.2.isNone) = true →
+    reducedShape psh new = reducedShape psh old
+  | [], _, _, _, _ => by simp [reducedShape]
+  | _ :: _, [], [], _, _ => rfl
+  | _ :: _, [], _ :: _, hl, _ => by simp at hl
+  | _ :: _, _ :: _, [], hl, _ => by simp at hl
+  | h :: hs, o :: old, n :: new, hl, hp => by
+    simp only [List.zip_cons_cons, List.all_cons, Bool.and_eq_true, beq_iff_eq] at hp
+    have ih := reducedShape_setIndices hs old new (by simpa using hl) hp.2
+    cases o <;> cases n <;> simp_all [reducedShape]
+
 end GlueVerif.Lemmas.C04
